@@ -9,6 +9,9 @@ from checks import parsegen, parse_common
 
 THEOREMS = ["C01_roundtrip", "C01_reduce_sound", "C01_closing_tag_found", "C01_wf_witness", "C01_old_refuted"]
 PROPS = "theories/Props/C01.v"
+PROPS_B = "theories/Props/C01b.v"
+THEOREMS_B = ["C01_codegen_view", "C01_codegen_string", "C01_tuple_order", "C01_tuple_order_eval", "C01_flatten_atoms",
+              "C01_either_exists", "C01_either_in_range", "C01_either_injective", "C01_tuple_width"]
 REGISTRY = {
     "level": "proof",
     "technique": "Coq proof (round trip parse∘print on the documented grammar, reduce soundness) + differential correspondence with ParsedValue::new/reduce",
@@ -16,8 +19,9 @@ REGISTRY = {
             "nesting, any whitespace padding) parse(print src) succeeds and reduce of it denotes exactly the source's pieces; "
             "C01_reduce_sound for every value; C01_closing_tag_found for the tag scan. The model (Parser/Parse.v, Reduce.v) is tied to "
             "/repo by running ParsedValue::new and reduce on generated strings and comparing trees; the Coq spec predicate is evaluated on "
-            "the implementation's reduced values against the source AST. Partial: the code generator and leptos rendering are not yet in "
-            "the model.",
+            "the implementation's reduced values against the source AST. Code generation: Props/C01b.v (evaluating the generated view / "
+            "string term equals the value's pieces, tuple order and width, EitherOf wrapping), whose correspondence (generated probe crates: "
+            "td!/td_string!/t! output vs the source AST) runs in the C02 check. Partial: leptos' HTML rendering is observed, not modelled.",
     "design_ref": "DESIGN.md §5 C01",
     "note": "Trusted: Coq kernel + vm_compute; hand-written model tied by correspondence; syn::Ident and serde_json are oracles "
             "(theorems quantify over them); Python generator; h_parser harness. No axioms.",
@@ -46,6 +50,21 @@ def shrink_items(items, pred):
 
 def run(ctx):
     ok, problems = core.coq_audit(ctx, PROPS, THEOREMS)
+    ci1 = ctx.coq_info
+    # the code-generation half of C01 (Codegen/Target.v, proved in Props/C01b.v; its correspondence runs in checks/C02.py)
+    ok2, problems2 = core.coq_audit(ctx, PROPS_B, THEOREMS_B)
+    ci2 = ctx.coq_info
+    ok, problems = ok and ok2, problems + problems2
+    if ci1.get("built") and ci2.get("built"):
+        closure = list(dict.fromkeys(ci1["closure"] + ci2["closure"]))
+        ctx.coq_info = {"built": True, "closure": closure, "theorems": ci1["theorems"] + ci2["theorems"],
+                        "qed_in_closure": ci1["qed_in_closure"] + sum(1 for f in ci2["closure"] if f not in ci1["closure"]) and
+                        (ci1["qed_in_closure"] + ci2["qed_in_closure"]),
+                        "assumptions": {**ci1["assumptions"], **ci2["assumptions"]},
+                        "sources_sha256": ci1["sources_sha256"] + "+" + ci2["sources_sha256"],
+                        "targets": ["theories/Props/C01.vo", "theories/Props/C01b.vo"]}
+    else:
+        ctx.coq_info = ci1 if not ci1.get("built") else ci2
     n_valid, n_mal = (2000, 700) if ctx.quick else (25000, 8000)
     cases = parsegen.gen_cases(ctx.rng, n_valid, n_mal)
     meta, codes, _ = parse_common.evaluate(ctx, "c01", cases, "check_C01")
